@@ -18,7 +18,7 @@ const MinDistinct = 40
 // Counts of the two tiers (cases, never durations).
 const (
 	QuickCases    = 150
-	ThoroughCases = 3000
+	ThoroughCases = 9000
 )
 
 // componentRule describes how the component-level cases are generated (the L2
